@@ -541,6 +541,10 @@ func runC09(ctx *common.Ctx) error {
 	sizes := []int{0, 1, 2, 100, 65535, 65536, 65537, 262143, 262144, 262145, 524287, 524288, 524289, 786433, 1048576}
 	if thorough {
 		sizes = append(sizes, 1048577, 2*1048576+1, 3*262144-1, 4*262144, 5*1048576, 8*1048576+1, 16*1048576, 32*1048576-1)
+		for i := 0; i < 30; i++ { // random sizes around multiples of the block size and of the LZ4 block size
+			base := []int{65536, 262144}[ctx.Rng.Intn(2)] * (1 + ctx.Rng.Intn(12))
+			sizes = append(sizes, base+ctx.Rng.Intn(7)-3)
+		}
 	}
 	kinds := []string{"zero", "text", "rand", "mixed"}
 	ncorr := 0
